@@ -431,6 +431,18 @@ class Sim:
             if fb == b:
                 if kind == 'r':
                     out += ['r'] * self.deliver(HB_BYTES)
+                elif kind in ('P', 'S', 'X'):
+                    # another thread stops / starts / restarts the checker while this check is running (only where
+                    # the check does not hold the lock: boundaries 0 and 2)
+                    if kind in ('P', 'X'):
+                        self.hb.stop()
+                        self.monitor.on_stop(mid=True)
+                        out.append('P')
+                    if kind in ('S', 'X'):
+                        lst = []
+                        self.all_lists.append(lst)
+                        self.monitor.on_start(self.hb.start(lst))
+                        out.append('S1')
                 else:
                     self.app_write(1)
                     out.append('w')
@@ -513,7 +525,11 @@ class Monitor:
         elif self.enabled:
             self.flag('C12/start-refused', 'the checker did not start although the timeout is positive')
 
-    def on_stop(self):
+    def on_stop(self, mid=False):
+        # a stop that falls inside a running check: that check began while the checker was up and may still deliver
+        # its verdict (it is judged as a verdict of the life it began in, not as one "after stop")
+        if mid and self.phase == 'up':
+            self.stale_up = True
         self.phase = 'down'
 
     def on_open_flag(self, b):
@@ -538,6 +554,10 @@ class Monitor:
             self.dead_seen = n
             if not self.enabled:
                 self.flag('C12/dead-with-timeout-zero', 'connection declared dead although the timeout is %s' % self.sim.T)
+            elif self.phase != 'up' and getattr(self, 'stale_up', False):
+                if not self.multi and 2 * (now - self.last_in) < self.T2:
+                    self.flag('C12/false-positive',
+                              'connection declared dead %s half-seconds after the last inbound frame (< T/2)' % fmt(now - self.last_in))
             elif self.phase != 'up':
                 self.flag('C12/dead-after-stop', 'connection declared dead while the checker is stopped')
             elif not self.multi and 2 * (now - self.last_in) < self.T2:
@@ -553,6 +573,7 @@ class Monitor:
 
     def on_tick_done(self):
         self.check_dead(False)
+        self.stale_up = False
 
     def after_event(self):
         self.check_dead(False)
@@ -772,10 +793,10 @@ def check(rep):
                 'boundary-spaced broker and application phases, fragmented inbound bytes, open/close/check_for_errors) on the '
                 'virtual clock for T in {0,1,2,3,10,60,600}, with reads/writes injected between the phases of a running check; '
                 'distinct = distinct (T, history); non-trivial = the history fires at least one timer')
-    rep.rule += '; plus: traces of locally failing writes, a third of the simulated connections stated as URIs (?heartbeat=T), and a two-thread test: heartbeat timer next to a caller waiting for Channel.OpenOk'
+    rep.rule += '; plus: every sequence (same bounds) in which a stop, a start or a stop+start by another thread falls inside a running check, before it takes the lock or after it released it (Hb.stepMid); traces of locally failing writes, a third of the simulated connections stated as URIs (?heartbeat=T), and a two-thread test: heartbeat timer next to a caller waiting for Channel.OpenOk'
     rep.assumptions = [
         'virtual time: timers fire exactly at their deadline and callbacks take no time (OS timer jitter and callback run time are outside the model)',
-        'start()/stop() are not interleaved with a running _check_for_life_signs (that race is defect D8 / property C08); reads and writes are',
+        'start()/stop() interleaved with a running _check_for_life_signs are modelled as atomic steps at the two points where the check does not hold the lock (Hb.stepMid); the bounds of the main theorems are proved for histories without such steps, the restart theorems (stale_check_cannot_kill_new_life, stop_mid_check_is_final) cover them',
         'no-false-positive is claimed for a single timer chain (start() only after stop()/dead, as Connection.open/close do); silence and latency bounds hold for any number of chains',
         'the += of register_read/register_write is treated as atomic (a lost update there only makes the client more talkative / more patient by one interval)',
         'operations raise: Connection.check_for_errors() raises the first entry of the error list; modelled only as "the heartbeat error is in the list" (C06 covers propagation); the monitor calls the real check_for_errors()',
@@ -844,6 +865,17 @@ def check(rep):
                     evs = [('setopen', True)] + [letters[i] for i in seq]
                     sim, projs = run_history(T, evs, 0, False)
                     record(T, [list(e) for e in evs], sim, projs, 0, False, 'exhaustive-interleaved')
+        # ... and with a stop / start / stop+start by another thread falling inside a running check
+        mid_letters = [('tick', b, k) for b in (0, 2) for k in ('P', 'S', 'X')]
+        letters = ALPHABET + mid_letters
+        for T, L in ((2, 5 if thorough else 4), (3, 4 if thorough else 3)):
+            for n in range(1, L + 1):
+                for seq in itertools.product(range(len(letters)), repeat=n):
+                    if not any(i >= len(ALPHABET) for i in seq):
+                        continue
+                    evs = [('setopen', True)] + [letters[i] for i in seq]
+                    sim, projs = run_history(T, evs, 0, False)
+                    record(T, [list(e) for e in evs], sim, projs, 0, False, 'exhaustive-restart-mid-check')
     else:
         rep.count('kind', 'phase-boundaries-not-recognised')
     rep.exhaustive = True
